@@ -15,3 +15,6 @@ open GV.FFT
 #print axioms C10_driver_FFT_DIF
 #print axioms C10_domain_roundtrip
 #print axioms C10_readFrom_chunking
+#print axioms C10_readInto_receiver_irrelevant
+#print axioms C10_readInto_roundtrip
+#print axioms C10_readIntoAnswer_receiver_irrelevant
